@@ -346,6 +346,9 @@ def tlc(workdir, module, cfg, *, workers=None, dump=None, simulate=None, depth=N
     if m:
         res["violated"] = m.group(1)
         return res
+    if "Temporal properties were violated" in out:
+        res["violated"] = "temporal property (liveness)"
+        return res
     if "is violated" in out:
         m = re.search(r"Error: (.*is violated.*)", out)
         res["violated"] = m.group(1) if m else "?"
